@@ -37,3 +37,23 @@ def tie(ext_name, ext_src, variables, model_term, unfolds=(), tactic=None):
     return (f"{ext_src}\n"
             f"theorem {ext_name}_tie ({args} : Rat) : {ext_name} {args} = {model_term} := by\n"
             f"  {tac}\n")
+
+
+def sym_tie(ctx, name, fn, variables, ret_type, model_term, leaf_ok, tactic=None, meta=None,
+            catch=(ValueError,)):
+    """ctx.sym_tie with custom leaf rendering: trace, emit, register `∀ vars, name vars = model_term`.
+    A trace that fails (the stub no longer fits the code) is a broken obligation, never a crash."""
+    from .leanio import InfraError
+    try:
+        src, tree, n = extract(name, fn, variables, ret_type, leaf_ok, catch=catch)
+    except InfraError:
+        raise
+    except Exception as e:  # noqa: BLE001
+        ctx.symbolic_ties[name] = {"error": repr(e)[:300]}
+        ctx.pre_failed.append(name)
+        ctx.fail("obligation", name, detail=f"symbolic trace of the current source failed: {e!r}",
+                 extra=dict(meta or {}))
+        return None
+    ctx.symbolic_ties[name] = {"paths": n}
+    ctx.obligation(name, tie(name, src, variables, model_term, tactic=tactic), meta)
+    return tree
